@@ -12,7 +12,7 @@ RULE = ("Square systems of order 2-5 with modes 2-12 (<= 2000 unknowns) from thr
         "sum_k I x..x (tridiag(-1,2,-1)+sigma I) x..x I in its rank-2 TT form, diagonally dominant = I + E with "
         "||E||_F = 0.3 and ranks 1-3; right-hand side = Gaussian TT of ranks 1-4 (not built from a low-rank solution); "
         "eps log-uniform in [1e-10,1e-3]; preconditioner None/'c'/'r'; max_full 500 (direct local solve) or 0 (iterative); "
-        "local_solver 1 (GMRES; Krylov length x restarts (40,2) default, (15,6) or (10,10) so that restarted cycles really run) or 2 (BiCGSTAB); x0 None or a random TT; the seed of the library's internal randomness. "
+        "local_solver 1 (GMRES; Krylov length x restarts (40,2) default, (15,6) or (10,10) so that restarted cycles really run) or 2 (BiCGSTAB); x0 None, a random TT, the zero tensor / a TT with one zero core, or the right-hand side itself; the seed of the library's internal randomness. "
         "Oracle: x is a TT tensor of shape b.N and ||A x - b|| <= 5 eps ||b|| with A x formed densely by the checker. "
         "Non-trivial: iterative local solver used, or preconditioner set, or x0 given.")
 BUDGET = {"quick": 1280, "thorough": 32000}
@@ -49,6 +49,8 @@ def strategy_case(draw):
         case["RE"] = draw(gen.ranks(d, 3))
     if draw(st.floats(0, 1)) < 0.3:
         case["x0_R"] = draw(gen.ranks(d, 4))
+        # the zero tensor is the classical start vector of an iterative solver: the whole tensor, or one zero core
+        case["x0_zero"] = draw(st.sampled_from([None, None, None, None, "zeros", "zero_core"]))
     elif draw(st.floats(0, 1)) < 0.15:
         case["x0_is_rhs"] = True        # amen_solve(A, b, x0=b): the right-hand side as initial guess
     return case
@@ -150,7 +152,13 @@ def execute(case):
     x0 = None
     if "x0_R" in case:
         ck.label("x0")
-        x0 = T.TT(core.make_cores({"N": N, "R": case["x0_R"], "dt": "f64", "mode": "gauss", "seed": case["seed"] + 7}))
+        x0c = core.make_cores({"N": N, "R": case["x0_R"], "dt": "f64", "mode": "gauss", "seed": case["seed"] + 7})
+        if case.get("x0_zero") == "zero_core":
+            kz = case["seed"] % len(N)
+            x0c[kz] = torch.zeros_like(x0c[kz])
+        x0 = T.TT(x0c) if case.get("x0_zero") != "zeros" else T.zeros(list(N))
+        if case.get("x0_zero"):
+            ck.label("x0_zero")
     if case.get("x0_is_rhs") and x0 is None:
         x0 = b
         ck.label("x0", "x0_is_rhs")
